@@ -1164,8 +1164,49 @@ struct WSt {
     guard_histories: u64,
 }
 
+/// A worker sink that is only ever flushed by hand: its flush interval is `Duration::MAX` (and, as
+/// a control, one year). Entries merged through guards, an awaited flush, more entries, the last
+/// handle dropped: everything is emitted, a flush completes after emission. Real threads; a panic
+/// of the worker shows as a panicking / never completing flush.
+fn hand_flushed_workers(v: &mut Violations) -> u64 {
+    let mut n = 0;
+    for (label, interval) in [("Duration::MAX", Duration::MAX), ("one year", Duration::from_secs(365 * 24 * 3600)), ("u64::MAX / 2 seconds", Duration::from_secs(u64::MAX / 2))] {
+        n += 1;
+        let d = VSink::<Direct>::new();
+        let d2 = d.clone();
+        let r = std::panic::catch_unwind(std::panic::AssertUnwindSafe(move || {
+            let sink = WorkerSink::new(KeyedAggregator::<Direct, _>::new(d2.clone()), interval);
+            drop(direct(0, 0).merge(sink.clone()));
+            drop(direct(0, 1).merge(sink.clone()));
+            futures::executor::block_on(sink.flush());
+            let after_flush = d2.drain().len();
+            drop(direct(1, 2).merge(sink.clone()));
+            drop(sink);
+            // the worker emits what it holds once the last handle is gone
+            let t0 = std::time::Instant::now();
+            let mut late = 0;
+            while late == 0 && t0.elapsed() < Duration::from_secs(30) {
+                late += d2.drain().len();
+                std::thread::sleep(Duration::from_millis(2));
+            }
+            (after_flush, late)
+        }));
+        match r {
+            Ok((1, 1)) => {}
+            Ok((a, b)) => v.add("worker:hand-flushed:inputs-not-emitted", format!("flush interval {label}: {a} aggregates emitted by the awaited flush (expected 1), {b} after the last handle was dropped (expected 1 within 30 s)"), json!({"flush_interval": label, "emitted_by_flush": a, "emitted_after_last_handle": b})),
+            Err(_) => v.add("worker:hand-flushed:panicked", format!("flush interval {label}: building, flushing or dropping the worker sink panicked"), json!({"flush_interval": label})),
+        }
+    }
+    n
+}
+
 fn main() {
     let mut rep = Report::from_args("C10", "model_checking");
+    let default_hook_w = std::panic::take_hook();
+    std::panic::set_hook(Box::new(|_| {}));
+    let hand_flushed = hand_flushed_workers(&mut rep.violations);
+    std::panic::set_hook(default_hook_w);
+    rep.set("hand_flushed_worker_cases", hand_flushed);
     let default_hook = std::panic::take_hook();
     std::panic::set_hook(Box::new(move |info| {
         if !info.payload().is::<ExpectedUnwind>() {
